@@ -12,8 +12,8 @@ theorem verdict : (classify Generated.factsC25).Sound (Holds (cfgOf Generated.fa
 #print axioms repaired_flush_partial
 #print axioms repaired_writer_safe_partial
 #print axioms finish_clean
-#print axioms Hv.Storage.flushWF_nofault
-#print axioms Hv.Storage.addManyWF_nofault
-#print axioms Hv.Storage.syncWF_nofault_disk
+#print axioms Hv.BlockStore.flushWF_nofault
+#print axioms Hv.BlockStore.addManyWF_nofault
+#print axioms Hv.BlockStore.syncWF_nofault_disk
 
 end Hv.C25
